@@ -321,6 +321,14 @@ pub fn run(tier: Tier) -> i32 {
             cases.push(Case { label: format!("detector-field lane status nibble sweep fmt {fmt}"), bytes: bytes.clone(), view, filter: None, truth_kinds: None });
         }
     }
+    // arbitrary header bytes (reserved bits set too) in `view rdh`: styled and unstyled rows must both decode the fields
+    for salt in 0..(if tier.is_thorough() { 12u64 } else { 4 }) {
+        let mut pk = crate::gen::recognisable_pattern_stream(&[0, 1, 2, 0, 1, 2], 7000 + salt);
+        for p in pk.iter_mut() {
+            p.rdh.system_id = 0x20;
+        }
+        cases.push(Case { label: format!("arbitrary header bytes, salt {salt}"), bytes: stream::to_bytes(&pk), view: "rdh", filter: None, truth_kinds: None });
+    }
     for w in witnesses() {
         let s = grammar::interleave(&w.links, &w.order);
         let bytes = s.bytes();
